@@ -84,7 +84,7 @@ def run_ula(pid, tier, seed, mc_cfgs, scen, rule, assumptions):
     ok, n, rej = selftest(pid, first, seed)
     chk.cov["selftest"] = {"corrupted_events": n, "rejected": rej, "ok": ok}
     if not ok:
-        raise ToolError("self-test: corrupted events were not all rejected")
+        chk.selftest_failed("corrupted events were not all rejected")
     chk.cov["traces_validated_against_impl"] = chk.cov["events_validated"]
     chk.cov["rule"] = rule(quick, shards)
     chk.assumptions += assumptions
